@@ -6,6 +6,7 @@ package PKGNAME
 
 import (
 	"bytes"
+	"runtime"
 	"context"
 	"encoding/binary"
 	"encoding/json"
@@ -24,6 +25,7 @@ import (
 type vfC32Case struct {
 	Transport int // 0 SSE (POST), 1 SSE (GET cf_connect), 2 HTTP stream JSON, 3 HTTP stream Protobuf
 	Others    []int // transports of further connections subscribed to the same channel (the hub shares one encoded message between them)
+	SingleP   bool  // run the case with GOMAXPROCS=1: pooled encoders / buffers released by one connection are reused by the next one
 	Slow      int   // index of the connection whose ResponseWriter holds every Write until all publications were issued (0 = the first), -1 none
 	Payloads  [][]byte
 	Burst     []bool // payload i is published without settling after payload i-1 (batches in WriteMany)
@@ -39,7 +41,7 @@ func (c vfC32Case) String() string {
 		}
 		ps = append(ps, fmt.Sprintf("%s%q", b, vfTrunc(string(p), 80)))
 	}
-	return fmt.Sprintf("transport=%d others=%v slow=%d maxInFrame=%d payloads=[%s]", c.Transport, c.Others, c.Slow, c.WriteMax, strings.Join(ps, " "))
+	return fmt.Sprintf("transport=%d others=%v slow=%d singleP=%v maxInFrame=%d payloads=[%s]", c.Transport, c.Others, c.Slow, c.SingleP, c.WriteMax, strings.Join(ps, " "))
 }
 
 var vfC32WS = []string{"", "", " ", "\t", "\r", "\n", "\r\n", " \r ", "\n\n"}
@@ -103,14 +105,17 @@ func vfC32Gen(rt *rapid.T) vfC32Case {
 			allJSON = false // a non-JSON payload disconnects JSON connections (inappropriate protocol): Protobuf only
 		}
 	}
-	if allJSON {
-		no := rapid.SampledFrom([]int{0, 0, 1, 1, 2}).Draw(rt, "others")
-		for i := 0; i < no; i++ {
-			c.Others = append(c.Others, rapid.SampledFrom([]int{0, 0, 1, 2}).Draw(rt, "otherTransport"))
-		}
-		if no > 0 {
-			c.Slow = rapid.IntRange(-1, no).Draw(rt, "slow")
-		}
+	kinds := []int{0, 0, 1, 2, 3}
+	if !allJSON {
+		kinds = []int{3}
+	}
+	no := rapid.SampledFrom([]int{0, 0, 1, 1, 2}).Draw(rt, "others")
+	for i := 0; i < no; i++ {
+		c.Others = append(c.Others, rapid.SampledFrom(kinds).Draw(rt, "otherTransport"))
+	}
+	if no > 0 {
+		c.Slow = rapid.IntRange(-1, no).Draw(rt, "slow")
+		c.SingleP = rapid.Bool().Draw(rt, "singleP")
 	}
 	return c
 }
@@ -245,6 +250,10 @@ type vfC32Out struct {
 }
 
 func vfC32Run(t *testing.T, cs vfC32Case, out *vfC32Out, isKnown func(string) bool) string {
+	if cs.SingleP {
+		defer runtime.GOMAXPROCS(runtime.GOMAXPROCS(1))
+		out.labels = append(out.labels, "single_P_schedule")
+	}
 	return vfBubble(t, func() string {
 		ch := "ch"
 		w, err := vfNewWorld(Config{}, func(w *vfWorld) {
